@@ -286,6 +286,10 @@ func runC10(r *run) {
 		if g.chance(1, 2) {
 			base := len(ls)
 			pins = []pin{{15, 0, -1, 0}, {15, 0, -1, 0}, {0, base, 7, 1}, {0, base + 1, 7, 1}, {0, base, 5, 0}, {0, base + 1, 5, 0}}
+			if g.chance(1, 2) {
+				// the same through the With… builders: two children made from one prepared list, then each gets more
+				pins = []pin{{8, 0, 7, 1}, {8, 0, 7, 1}, {0, base, 5, 0}, {0, base + 1, 5, 0}}
+			}
 		}
 		pinSetting, pinShared := -1, -1
 		for step := 0; step < nOps; step++ {
@@ -346,6 +350,10 @@ func runC10(r *run) {
 						sh := shared[g.intn(len(shared))]
 						if pinShared >= 0 {
 							sh = shared[pinShared]
+						}
+						if g.chance(1, 2) {
+							// the same prepared list spread into the variadic forms (the slice has spare capacity)
+							return fmt.Sprintf("attrs %d", sh.id), func(l slog.Logger) { l.SetAttrs(sh.as...) }, func(l slog.Logger) *slog.Entry { return l.WithAttrs(sh.as...) }
 						}
 						return fmt.Sprintf("attrs %d", sh.id), func(l slog.Logger) { l.SetAttrs1(sh.as) }, func(l slog.Logger) *slog.Entry { return l.WithAttrs1(sh.as) }
 					}
